@@ -160,7 +160,10 @@ struct World {
     vsched::reset_names();
     for (int i = 0; i < sc.nlocks; ++i) {
       locks.emplace_back(new Lock{});
-      vsched::name_object(&(locks.back()->lock_), "L" + std::to_string(i));
+      // the lock word is the lock object's only data member: name the object's address (not `lock_`, so that renaming the
+      // private member is not a harness error)
+      static_assert(sizeof(Lock) == sizeof(uint64_t) || sizeof(Lock) == sizeof(std::atomic<uint64_t>) || sizeof(Lock) >= 8);
+      vsched::name_object(static_cast<const void *>(locks.back().get()), "L" + std::to_string(i));
     }
     if constexpr (std::is_same_v<Lock, ::dbgroup::lock::MCSLock>) {
       vsched::set_node_naming(sc.nlocks, (1ULL << 47U) - 1ULL);
